@@ -52,11 +52,11 @@ func (m *Metrics) Write(w io.Writer) error {
 	}
 
 	bbox := m.FontBBoxPDF()
-	llx := int(math.Floor(bbox.LLx))
-	lly := int(math.Floor(bbox.LLy))
-	urx := int(math.Ceil(bbox.URx))
-	ury := int(math.Ceil(bbox.URy))
-	if err := write("FontBBox %d %d %d %d", llx, lly, urx, ury); err != nil {
+	llx := math.Floor(bbox.LLx)
+	lly := math.Floor(bbox.LLy)
+	urx := math.Ceil(bbox.URx)
+	ury := math.Ceil(bbox.URy)
+	if err := write("FontBBox %.0f %.0f %.0f %.0f", llx, lly, urx, ury); err != nil {
 		return err
 	}
 
@@ -112,11 +112,11 @@ func (m *Metrics) Write(w io.Writer) error {
 				break
 			}
 		}
-		llx := int(math.Floor(g.BBox.LLx))
-		lly := int(math.Floor(g.BBox.LLy))
-		urx := int(math.Ceil(g.BBox.URx))
-		ury := int(math.Ceil(g.BBox.URy))
-		line := fmt.Sprintf("C %d ; WX %.0f ; N %s ; B %d %d %d %d ;",
+		llx := math.Floor(g.BBox.LLx)
+		lly := math.Floor(g.BBox.LLy)
+		urx := math.Ceil(g.BBox.URx)
+		ury := math.Ceil(g.BBox.URy)
+		line := fmt.Sprintf("C %d ; WX %.0f ; N %s ; B %.0f %.0f %.0f %.0f ;",
 			charCode, g.WidthX, name, llx, lly, urx, ury)
 		succs := make([]string, 0, len(g.Ligatures))
 		for succ := range g.Ligatures {
